@@ -488,12 +488,39 @@ def r08_7_method_decorator(ctx):
     ctx.require_min("R08.7", 100)
 
 
+def r08_8_option_plumbing(ctx):
+    ctx.rule("R08.8", "the router builds its dispatch and wrapper code for the calling convention it is then compiled with: _build_impl hands the version and the OptimizeOptions of its input both to _build_program (which chooses frame-pointer or scratch wrappers from them) and - through get_compilation - to the Compilation of the approval and clear-state programs")
+    r = ctx.model.find_class("Router", "pyteal.ast.router")
+    bi = q.need(r.methods.get("_build_impl"), "Router._build_impl vanished")
+    ctx.analysed(bi.fq)
+    inp = bi.params()[1]
+    bp = q.one(q.calls_named(bi.node, "_build_program", into_nested=False), "_build_impl: _build_program call")
+    kws = {k.arg: q.rtext(bi.node, k.value) for k in bp.keywords}
+    bprog = r.methods["_build_program"]
+    pos = {p: q.rtext(bi.node, a) for p, a in zip(bprog.params()[1:], bp.args)}
+    got = {**pos, **kws}
+    want = {"version": f"{inp}.version", "optimize": f"{inp}.optimize"}
+    ctx.check(all(got.get(k) == v for k, v in want.items()), "R08.8", "_build_impl:_build_program-arguments", f"_build_program is given {got}; it must get version={want['version']} and optimize={want['optimize']} (without the options it assumes the default convention, whatever the program is compiled with)", f"{bi.module.rel}:{bp.lineno}", fact={"arguments": got})
+    gcs = q.calls_named(bi.node, "get_compilation", into_nested=False)
+    ctx.check(len(gcs) == 2 and all(u(c.func) == f"{inp}.get_compilation" for c in gcs), "R08.8", "_build_impl:compilations-from-the-same-input", f"both programs must be compiled through {inp}.get_compilation(...); found {[u(c.func) for c in gcs]}", bi.where, fact={})
+    rci = ctx.model.find_class("_RouterCompileInput", "pyteal.ast.router")
+    gc = q.need(rci.methods.get("get_compilation"), "_RouterCompileInput.get_compilation vanished")
+    comp = q.one(q.calls_named(gc.node, "Compilation", into_nested=False), "get_compilation: Compilation(...)")
+    ckw = {k.arg: u(k.value) for k in comp.keywords}
+    ctx.check(ckw.get("version") == "self.version" and ckw.get("optimize") == "self.optimize" and ckw.get("assemble_constants") == "self.assemble_constants", "R08.8", "get_compilation:options", f"Compilation(...) must receive this input's version, optimize and assemble_constants; it gets {ckw}", gc.where, fact={"keywords": ckw})
+    # _build_program derives the convention from exactly those two
+    uses = [u(n) for n in ast.walk(bprog.node) if isinstance(n, ast.Call) and u(n.func).endswith(".use_frame_pointers")]
+    ctx.check(len(uses) == 1 and uses[0] in ("optimize.use_frame_pointers(version)",), "R08.8", "_build_program:convention", f"the wrapper convention must be optimize.use_frame_pointers(version); found {uses}", bprog.where, fact={})
+    ctx.require_min("R08.8", 4)
+
+
 def run(ctx):
     r08_1_method_config(ctx)
     r08_2_bare_calls(ctx)
     r08_4_dispatch(ctx)
     r08_5_registration(ctx)
     r08_7_method_decorator(ctx)
+    r08_8_option_plumbing(ctx)
     r08_6_enum_tables(ctx)
     from rules import c12 as _c12, c09 as _c09, c13 as _c13
 
